@@ -86,6 +86,35 @@ pub fn storage_objects(seed: u64, n: u64) -> Vec<(&'static str, String)> {
     for k in &uni.keys {
         out.push(("pubkey", k.expr.clone()));
     }
+    // raw key hashes (what the script decoder produces for `DUP HASH160 <h> EQUALVERIFY`), as text
+    // and object-first from decoded scripts
+    if uni.keys.len() >= 2 {
+        use bitcoin::hashes::{hash160, Hash};
+        let h = hash160::Hash::hash(&uni.keys[0].public.to_bytes());
+        out.push(("descriptor", format!("wsh(c:expr_raw_pkh({}))", h)));
+        out.push(("descriptor", format!("sh(and_v(vc:expr_raw_pkh({}),pk({})))", h, uni.keys[1 % uni.keys.len()].expr)));
+        out.push(("ms-segwit", format!("or_d(c:expr_raw_pkh({}),pk({}))", h, uni.keys[1 % uni.keys.len()].expr)));
+    }
+    if uni.keys.len() >= 2 {
+        let a = bitcoin::PublicKey::new(uni.keys[0].public.inner);
+        let b = bitcoin::PublicKey::new(uni.keys[1 % uni.keys.len()].public.inner);
+        out.push(("decoded-from-script", format!("wsh(or_d(pkh({}),and_v(v:pkh({}),older({}))))", a, b, 1 + rng.below(100))));
+        out.push(("decoded-from-script", format!("wsh(and_v(v:pkh({}),pk({})))", a, b)));
+    }
+    // multipath steps with repeated alternatives (accepted by the parser)
+    {
+        let mp = multipath_key(&uni, &mut rng);
+        if !mp.is_empty() {
+            if let (Some(a), Some(b)) = (mp.find('<'), mp.find('>')) {
+                let x = rng.below(4);
+                for alt in [format!("<{};{}>", x, x), format!("<{};{};{}>", x, x, x + 1), format!("<{};{};{}>", x, x + 1, x)] {
+                    // a parser may refuse these (BIP389 wants distinct indexes); if it accepts one,
+                    // the key must survive printing
+                    out.push(("pubkey-optional", format!("{}{}{}", &mp[..a], alt, &mp[b + 1..])));
+                }
+            }
+        }
+    }
     // miniscripts with string keys in each context, policies
     {
         let mut g = Gen::new(&mut rng, &mut uni, locks);
@@ -169,7 +198,7 @@ pub fn roundtrip(kind: &str, s: &str) -> Result<(String, String), String> {
     }
     match kind {
         "descriptor" => rt!(Descriptor<DescriptorPublicKey>),
-        "pubkey" => rt!(DescriptorPublicKey),
+        "pubkey" | "pubkey-optional" => rt!(DescriptorPublicKey),
         "secretkey" => rt!(DescriptorSecretKey),
         "ms-segwit" => {
             let a = Miniscript::<DescriptorPublicKey, miniscript::Segwitv0>::from_str_insane(s).map_err(|e| format!("parse: {}", e))?;
@@ -192,6 +221,20 @@ pub fn roundtrip(kind: &str, s: &str) -> Result<(String, String), String> {
         }
         "concrete" => rt!(Concrete<String>),
         "semantic" => rt!(Semantic<String>),
+        "decoded-from-script" => {
+            // object-first: the miniscript the script decoder returns for the script of `s`
+            // (key hashes come back raw) -> text -> parse -> same object, same script
+            let d = Descriptor::<bitcoin::PublicKey>::from_str(s).map_err(|e| format!("parse: {}", e))?;
+            let script = d.explicit_script().map_err(|e| format!("parse: {}", e))?;
+            let ms = Miniscript::<bitcoin::PublicKey, miniscript::Segwitv0>::decode_consensus(&script).map_err(|e| format!("parse: decode {}", e))?;
+            let text = ms.to_string();
+            let back = Miniscript::<bitcoin::PublicKey, miniscript::Segwitv0>::from_str_with_validation_params(&text, &miniscript::ValidationParams::MAX)
+                .map_err(|e| format!("re-parse of own output failed: {} [{}]", e, text))?;
+            if back != ms || back.encode() != script {
+                return Err(format!("parse(print(x)) != x [{}]", text));
+            }
+            Ok((text, back.to_string()))
+        }
         "descriptor-to-walletpolicy" => {
             // object-first: descriptor -> wallet policy -> text -> wallet policy -> descriptor
             let d = Descriptor::<DescriptorPublicKey>::from_str(s).map_err(|e| format!("parse: {}", e))?;
